@@ -5,7 +5,8 @@ one-character str, so every downstream string operation is Python's own.  Positi
 characters (used by the conformance gate, which replays the repository's .kg corpus through SymText and through str).
 """
 ALPHA = ['"', ':', ';', '(', ')', '{', '}', '[', ']', '0', '1', 'c', 'e', 'x', 'a', '-', '.', '+', '\n', ' ',
-         '\\', '~', '*', "'", '/', '@', '|', '#', ',', '_']
+         '\\', '~', '*', "'", '/', '@', '|', '#', ',', '_',
+         '\u00e9']     # a letter outside ASCII: str.isalpha() is true for it, [A-Za-z] is not
 SUB = ['{', '}', '[', ']', '(', ')', ':', ';', '"', '0', 'x', "'", '\n', ' ']
 
 
@@ -130,3 +131,76 @@ class _View(SymText):
 
     def concrete(self):
         return "".join(self.parent._at(j) for j in self.idx)
+
+
+# ------------------------------------------------------------------------------------------------ regular expressions
+# The re module accepts only real str subjects.  A lexer that uses a compiled pattern (a plausible refactoring of the hand-written
+# scanning loops) could therefore not run on a SymText at all.  The proxy below realises the text (every position the pattern could
+# look at = all of it) before handing it to the real pattern object - more paths, same semantics.  Installed before klongpy is
+# imported, so that module-level `X = re.compile(...)` inside klongpy gets the proxy; other callers get the plain pattern.
+import re as _re, sys as _sys
+
+
+def _plain(x):
+    return x.concrete() if isinstance(x, SymText) else x
+
+
+class _PatProxy:
+    def __init__(self, pat):
+        self._p = pat
+
+    def __getattr__(self, n):
+        return getattr(self._p, n)
+
+    def match(self, s, *a, **k):
+        return self._p.match(_plain(s), *a, **k)
+
+    def search(self, s, *a, **k):
+        return self._p.search(_plain(s), *a, **k)
+
+    def fullmatch(self, s, *a, **k):
+        return self._p.fullmatch(_plain(s), *a, **k)
+
+    def findall(self, s, *a, **k):
+        return self._p.findall(_plain(s), *a, **k)
+
+    def finditer(self, s, *a, **k):
+        return self._p.finditer(_plain(s), *a, **k)
+
+    def split(self, s, *a, **k):
+        return self._p.split(_plain(s), *a, **k)
+
+    def sub(self, repl, s, *a, **k):
+        return self._p.sub(repl, _plain(s), *a, **k)
+
+    def subn(self, repl, s, *a, **k):
+        return self._p.subn(repl, _plain(s), *a, **k)
+
+
+_installed = []
+
+
+def install_re_proxy():
+    if _installed:
+        return
+    _installed.append(True)
+    orig_compile = _re.compile
+
+    def compile(pattern, flags=0):
+        p = orig_compile(pattern, flags)
+        if _sys._getframe(1).f_globals.get("__name__", "").startswith("klongpy"):
+            return _PatProxy(p)
+        return p
+    _re.compile = compile
+    for name in ("match", "search", "fullmatch", "findall", "finditer", "split"):
+        def mk(orig):
+            def f(pattern, string, *a, **k):
+                return orig(pattern, _plain(string), *a, **k)
+            return f
+        setattr(_re, name, mk(getattr(_re, name)))
+    for name in ("sub", "subn"):
+        def mk2(orig):
+            def f(pattern, repl, string, *a, **k):
+                return orig(pattern, repl, _plain(string), *a, **k)
+            return f
+        setattr(_re, name, mk2(getattr(_re, name)))
